@@ -533,6 +533,21 @@ def odd_cases():
                 ('EAItemDelete', 'ea item delete', B.ea('DELETE', {'storyID': sp}, [B.ids('itemID', [other, sp])])),
                 ('EAItemReplace', 'ea item replace', B.ea('REPLACE', {'storyID': sp, 'itemID': sp}, [[new_item('N')]]))][k % 3::3]:
             case(cls, f'special ID {sp!r}: {lbl}', msg, sro)
+    # a big running order: 120 stories of 3 items with metadata between them; operations far from both ends
+    bigids = [f'B{k:03d}' for k in range(120)]
+    big = B.ro_doc([B.story(i, [B.item(f'{i}-a'), B.p('t'), B.item(f'{i}-b'), B.item(f'{i}-c')]) for i in bigids], pattern='between')
+    for cls, lbl, msg in [
+            ('StoryMove', 'far move', B.story_move(['B100', 'B007'])),
+            ('EAStoryMove', 'three far sources', B.ea('MOVE', {'storyID': 'B050'}, [B.ids('storyID', ['B119', 'B000', 'B051'])])),
+            ('EAStorySwap', 'ends', B.ea('SWAP', ABSENT, [B.ids('storyID', ['B000', 'B119'])])),
+            ('StoryDelete', 'scattered', B.story_delete(['B118', 'B001', 'B060', 'B061'])),
+            ('StoryInsert', 'before last', B.story_insert('B119', [X, Y])),
+            ('StoryReplace', 'middle', B.story_replace('B077', [X, Y, new_story('Z')])),
+            ('StorySend', 'late story', B.story_send('B111', [B.p('sent'), B.item('s1')])),
+            ('ItemMoveMultiple', 'in late story', B.item_move_multiple('B110', ['B110-c', 'B110-a'])),
+            ('EAItemSwap', 'in last story', B.ea('SWAP', {'storyID': 'B119'}, [B.ids('itemID', ['B119-a', 'B119-c'])])),
+            ('ItemDelete', 'same item IDs elsewhere', B.item_delete('B099', ['B099-b', 'B098-a']))]:
+        case(cls, 'big running order: ' + lbl, msg, big)
     # a blank-ID story carried into a running order that already holds a blank-ID story
     for cls, lbl, msg in [
             ('StoryInsert', 'blank carried, blank present', B.story_insert('C', [B.story(BLANK, [B.item('Q')]), X])),
